@@ -424,10 +424,10 @@ class BodyEval:
                     return E("call", [self.ev_rvalue(bb, i, s.rv)], "vec!", site)
             return E("call", [UNKNOWN], "vec!", site)
         path = strip_generics(c.path) if not c.trait or c.local else key
-        if c.local or c.krate in self.world.ws_crates:
-            path = strip_generics(c.path)
-        elif c.trait and (strip_generics(c.trait), c.name) in IDENT_TRAIT_METHODS:
+        if c.trait and (strip_generics(c.trait), c.name) in IDENT_TRAIT_METHODS:
             path = "%s::%s" % (strip_generics(c.trait), c.name)
+        elif c.local or c.krate in self.world.ws_crates:
+            path = strip_generics(c.dpath)
         e = E("call", args, path, site)
         return e
 
@@ -441,7 +441,7 @@ class BodyEval:
             tr = strip_generics(c.trait)
             if tr in ASSIGN_TRAITS and k == 0 and len(args) == 2:
                 return E("bin", [old, args[1]], ASSIGN_TRAITS[tr], site)
-        path = strip_generics(c.path)
+        path = strip_generics(c.dpath if (c.local or c.krate in self.world.ws_crates) else c.path)
         return E("out", [old] + args, (path, k), site)
 
 
